@@ -191,3 +191,26 @@ UNITS.append(Unit('dec2.read_string.chunked', ('CdnsDecoder::read_string', None)
                   post='  if (g_exc != 0) { CANARY("exception reachable"); }',
                   note='chunked strings: chunks are read until a stop code at a chunk boundary, which is consumed (and a normal return is reachable); a format '
                        'error is raised only for a chunk head that is not the stop code and has another major type or is itself indefinite; chunks < 2^32 bytes, total < 2^62'))
+
+# ---------------------------------------------------------------- read_bytestring / read_textstring (head check, then one read_string)
+def rbt_contract(major):
+    m = '0x%02X' % major
+    return '''
+__CPROVER_requires(__CPROVER_w_ok($this, sizeof(*$this)) && g_exc == 0 && D2_INV($this))
+__CPROVER_requires(g_nheads == 0 && g_rec == 0 && g_rs_calls == 0 && !g_arg0_set && !g_break_consumed && !g_callee_threw && !g_rec_on_break && !g_peek_break)
+__CPROVER_assigns($this->m_p, $this->m_end, ''' + G2 + ''')
+__CPROVER_ensures(g_exc == 0 || g_exc == EXC_CdnsDecoderException || g_exc == EXC_CdnsDecoderEnd)
+__CPROVER_ensures(g_exc == 0 ==> (g_nheads == 1 && MT(g_h0) == %(m)s && !(AIV(g_h0) >= 28 && AIV(g_h0) <= 30)))
+__CPROVER_ensures(g_exc == 0 ==> (g_rs_calls == 1 && g_rs_type == %(m)s && (g_rs_indef != 0) == (AIV(g_h0) == 31) && (AIV(g_h0) == 31 || g_rs_len == g_arg0)))
+__CPROVER_ensures((g_exc == EXC_CdnsDecoderException && !g_callee_threw) ==> (g_nheads == 1 && g_rs_calls == 0 && (MT(g_h0) != %(m)s || (AIV(g_h0) >= 28 && AIV(g_h0) <= 30))))
+__CPROVER_ensures((g_nheads == 1 && MT(g_h0) == %(m)s && !(AIV(g_h0) >= 28 && AIV(g_h0) <= 30) && !g_callee_threw) ==> g_exc == 0)
+''' % {'m': m}
+
+
+for nm, major in (('read_bytestring', 0x40), ('read_textstring', 0x60)):
+    UNITS.append(Unit('dec2.' + nm, ('CdnsDecoder::' + nm, None), contract=rbt_contract(major), prelude=P, opaque=OPQ, extra_c=STUBS_C + RS_STUB, arrays_uf=False,
+                      stubs=['CdnsDecoder__read_to_buffer', 'CdnsDecoder__peek_type', 'CdnsDecoder__read_cbor_type', 'CdnsDecoder__read_int', 'CdnsDecoder__read_break',
+                             'CdnsDecoder__read_string', 'cstring__\\w+'],
+                      setup=SETUP, args=['&obj'], props=['C07', 'C08', 'C03'], timeout=600, post='  if (g_exc != 0) { CANARY("exception reachable"); }',
+                      note='one head is read; a string of the other major type or with a reserved length code is a format error and nothing else is; otherwise exactly one '
+                           'read_string with the head\'s type, its argument as the length and "indefinite" iff the length code is 31 (definite and chunked forms alike)'))
